@@ -334,6 +334,11 @@ def solve_check(kind, case, rec):
     k0 = max(1, int(case["frac0"] * n))
     dof0 = np.sort(perm[:k0])
     dof1 = np.sort(perm[k0:])
+    if (case["seed"] // 4 + k0) % 3 == 2:
+        # index arrays in the caller's own order (e.g. the concatenated dof arrays of the boundaries): the blocks, the residual
+        # and the prescribed values are all ordered like them
+        dof0, dof1 = perm[:k0].copy(), perm[k0:].copy()
+        rec.label("index-arrays-not-ascending")
     if case["ext"] == "given":
         for f in fc.fields:
             f.values[...] = rng.uniform(-1, 1, f.values.shape)
